@@ -82,6 +82,11 @@ def case_handcoded(ctx, model, axis):
     ctx.equal("objectivity_P(QF)=Q_P(F)", PQ, mm(Q, P))
     Piso = np.asarray(mat.gradient([q(mm(F, Q.T)), sv])[0])[:, :, 0, 0]
     ctx.equal("isotropy_P(FQt)=P(F)Qt", Piso, mm(P, Q.T))
+    if hasattr(mat, "function"):
+        # the strain energy itself (pseudo-elastic wrappers take their softening factor from it)
+        W = np.asarray(mat.function([q(F), sv])[0]).reshape(-1)
+        ctx.equal("objectivity_W(QF)=W(F)", np.asarray(mat.function([q(mm(Q, F)), sv])[0]).reshape(-1), W)
+        ctx.equal("isotropy_W(FQt)=W(F)", np.asarray(mat.function([q(mm(F, Q.T)), sv])[0]).reshape(-1), W)
     if axis == 0:
         ctx.equal("kirchhoff_stress_symmetric", mm(P, F.T), mm(P, F.T).T)
         ctx.equal("major_symmetry_of_elasticity", A, np.transpose(A, (2, 3, 0, 1)))
